@@ -242,6 +242,8 @@ def _val(name, t):
         return bool(t)
     if k == "f":
         return float("nan") if t == NAN_TOK else float(t)
+    if k == "v":
+        return [int(t), int(t) + 1]        # an annotation with several values per atom: token t is the row (t, t+1)
     return int(t)
 
 
@@ -255,6 +257,8 @@ def _np_col(name, ts):
     if k == "s":
         # natural width of the values: string annotations of different arrays have different dtypes
         return np.array([_val(name, t) for t in ts], dtype=str) if ts else np.array([], dtype="U1")
+    if k == "v":
+        return np.array([_val(name, t) for t in ts], dtype=int).reshape(len(ts), 2)      # shape (n, 2)
     if k == "f":
         # float annotations of every width (float16 holds the tokens exactly)
         return np.array([_val(name, t) for t in ts], dtype=(np.float16, np.float32, np.float64)[sum(ts) % 3])
@@ -290,7 +294,7 @@ def _np_box(b, stack):
     return arr if stack else arr[0]
 
 
-KIND = {"s": "U", "i": "i", "f": "f", "b": "b"}
+KIND = {"s": "U", "i": "i", "f": "f", "b": "b", "v": "i"}
 
 
 def _dtypes_real(v, names):
@@ -313,6 +317,12 @@ def _tok(name, v):
         if k == "s":
             t = unword(v)
             return str(t) if t is not None else "?" + str(v)      # values are compared as strings
+        if k == "v":
+            import numpy as np
+            row = np.asarray(v)
+            if row.shape == (2,) and int(row[1]) == int(row[0]) + 1:
+                return str(int(row[0]))
+            return "?" + "_".join(str(x) for x in row.ravel().tolist()[:4])     # not a row of this category
         f = float(v)
         if f != f:
             return str(NAN_TOK) if k == "f" else "X"
@@ -1135,6 +1145,9 @@ def _oracle(case):
                 if w[0] == "set" and "?" in real and "?" not in exp:
                     return [("C01/setitem/string-truncated", f"op {k} `{op}`: a string annotation value was cut: "
                              f"{[x for x in re.findall(r'[?][a-z]+', real)][:4]} (values are compared as strings)")]
+                if re.search(r"v_\w+=[^;|]*[?]", real) and "?" not in exp:
+                    return [(f"C01/{cls}/annotation-rows", f"op {k} `{op}`: an annotation with several values per atom lost "
+                             f"its rows / its length: code {real[3:][:220]} != reference {exp[3:][:120]}")]
                 if "?" in real and "?" not in exp:
                     return [(f"C01/{cls}/string-truncated", f"op {k} `{op}`: a string annotation value was cut: "
                              f"{[x for x in re.findall(r'[?][a-z]+', real)][:4]}; code {real[3:][:160]}")]
@@ -1350,7 +1363,8 @@ def _oracle_api(case):
 
 # ------------------------------------------------------------------ generator (tracks state with the reference model)
 class Gen:
-    def __init__(self, rng, malformed=False):
+    def __init__(self, rng, malformed=False, vec=False):
+        self.vec = vec
         self.rng, self.ref, self.ops = rng, Ref(), []
         self.tok = 10 + rng.randrange(0, 60)
         self.ctok = 100 + rng.randrange(0, 500)
@@ -1359,6 +1373,8 @@ class Gen:
         self.extra = rng.sample(["i_x", "f_y", "s_z", "b_w"], rng.choice([0, 0, 1, 1, 2, 3]))
         if "f_y" not in self.extra and rng.random() < 0.4:
             self.extra.append("f_y")      # float annotations (any width, possibly NaN) in most histories
+        if vec:
+            self.extra.append("v_k")      # an annotation of shape (n, 2): several values per atom
 
     # tokens
     def t(self, name="i"):
@@ -1499,6 +1515,10 @@ class Gen:
         o = rng.choice(["get", "get", "get", "get", "get2", "get2", "get2", "set", "set", "del", "del", "concat", "concat",
                         "stack", "repeat", "tmpl", "array", "addann", "setann", "delann", "setcoord", "setbox",
                         "setbonds", "copy", "copy", "eq", "new", "atom"])
+        if self.vec:
+            # Atom objects and repeat()/add_annotation are not defined for array-valued annotation values
+            o = rng.choice(["get", "get", "get2", "del", "del", "del", "concat", "stack", "tmpl", "setann", "delann", "setcoord",
+                            "copy", "eq", "new"])
         d = rng.choice(REGS)
         s = rng.choice(cs)
         c = self.ref.r[s]
@@ -1649,15 +1669,15 @@ class Gen:
             return
 
 
-def _history(rng, n_ops, malformed=False):
-    g = Gen(rng, malformed)
+def _history(rng, n_ops, malformed=False, vec=False):
+    g = Gen(rng, malformed, vec)
     for k in range(rng.choice([1, 1, 2, 3])):
         g.new(REGS[k])
     guard = 0
     while len(g.ops) < n_ops and guard < 4 * n_ops:
         g.step()
         guard += 1
-    case = {"kind": "malformed" if malformed else "history", "ops": g.ops}
+    case = {"kind": "malformed" if malformed else ("vector-annotation" if vec else "history"), "ops": g.ops}
     if malformed:
         case["malformed"] = True
     return case
@@ -1707,6 +1727,8 @@ def cases(rng, tier):
         yield _history(rng, rng.randint(2, 12), malformed=True)
     for _ in range(60 if tier == "quick" else 600):
         yield _api_case(rng)
+    for _ in range(80 if tier == "quick" else 600):
+        yield _history(rng, rng.randint(3, 14), vec=True)
     if tier == "thorough":
         yield from _exhaustive(rng)
     else:
@@ -1726,7 +1748,11 @@ def _nan_case(fy):
 def corpus():
     base = "new r0 S 3 chain_id=11,12,13;res_id=21,22,23;ins_code=31,32,33;res_name=41,42,43;hetero=0,1,0;atom_name=51,52,53;element=61,62,63 101,102,103/104,105,106 201,202 0:1:1,1:2:2"
     arr = "new r0 A 4 chain_id=11,12,13,14;res_id=21,22,23,24;ins_code=31,32,33,34;res_name=41,42,43,44;hetero=0,1,0,1;atom_name=51,52,53,54;element=61,62,63,64 101,102,103,104 201 0:1:1,1:2:2,0:3:4"
+    vec = ("new r0 A 3 chain_id=16,17,24;res_id=21,22,23;ins_code=16,17,24;res_name=16,17,18;hetero=0,1,0;atom_name=16,17,18;"
+           "element=16,17,24;v_k=31,41,51 101,102,103 201 0:1:1,1:2:2")
     return [
+        {"kind": "regress", "ops": [vec, "copy r1 r0", "del r1 i1", "del r1 i-1", "get r2 r0 a2,0", "concat r3 r0,r2", "del r3 i0",
+                                    "get r2 r3 i1", "eq r0 r1"]},          # annotation with several values per atom
         _nan_case("7,11"), _nan_case("7,12"), _nan_case("7,10"),     # float16, float32, float64
         {"kind": "regress", "ops": [base, "get2 r1 r0 sN:N:N i-1", "get2 r1 r0 e i-3", "get2 r1 r0 sN:N:N i3", "get2 r1 r0 e i-4", "get2 r1 r0 l1,0 i2"]},
         {"kind": "regress", "ops": [base, "del r0 i0", "del r0 i-1", "del r0 i0"]},
